@@ -34,6 +34,13 @@ def _compare(CVSS3, part, v, expf, wf):
 
 
 def work(unit, tier, seed):
+    # every second unit is computed in a fresh non-main thread: a score must not depend on thread-local state
+    if unit % 2:
+        return runner.in_thread(_work, unit, tier, seed)
+    return _work(unit, tier, seed)
+
+
+def _work(unit, tier, seed):
     import cvss
     CVSS3 = cvss.CVSS3
     minor, bi = divmod(unit, len(BASES))
@@ -72,9 +79,14 @@ def work(unit, tier, seed):
         v = "CVSS:3.%d/" % minor + "/".join(f)
         _compare(CVSS3, part, v, expf, wf)
         n += 1
+        # the plain spelling of the same class: nothing but the base metrics and the defined temporal metrics
+        plain = "CVSS:3.%d/" % minor + "/".join(["%s:%s" % (k, b[k]) for k in BK] + ["%s:%s" % kv for kv in (("E", E), ("RL", RL), ("RC", RC)) if kv[1] != "X"])
+        _compare(CVSS3, part, plain, expf, wf)
+        n += 1
         if exp[1] != exp[0]:
             nt += 1
     cls["base/temporal"] += len(TEMP_SPELLED)
+    cls["base/temporal plain spelling"] += len(TEMP_SPELLED)
     # ---- environmental classes: BASES[bi] is the *modified* assignment ------------------------
     ma = b
     if tier == "thorough":
@@ -143,7 +155,7 @@ def run(tier, t0):
             "explicit equivalent, shuffled order); non-trivial = class whose temporal or environmental score "
             "differs from its base score; classes distinct by construction. Quick samples 116 of the 1,296 "
             "environmental combinations per (minor, modified assignment).")
-    required = ["base/temporal", "cap-active", "env=0", "scope-overridden", "hypothesis"]
+    required = ["base/temporal", "base/temporal plain spelling", "cap-active", "env=0", "scope-overridden", "hypothesis"]
     required += ["env:3.%d:MS=%s:MPR=%s" % (m, s, p) for m in (0, 1) for s in "UC" for p in "NLH"]
     return runner.finish(
         part, tier, t0, rule,
